@@ -71,7 +71,7 @@ PROPS = {
     'C16': {
         'units': [('contracts/N_fullwidth.vc', None, 'N_fullwidth')],
         'replay': ['c16', 'c16t'],
-        'replay_scope': 'c16: all 1,112,064 Unicode scalar values (exhaustive) + positional independence on 7 mixed strings; c16t (BOUNDED stand-in for the Tantivy clause, own replay crate): 8 models (resources/model.bin + seeded random ones; 40 thorough) x 34 texts (empty, whitespace only, CR/LF, half-width, combining marks, ZWJ emoji, texts without ASCII that contain non-ASCII keys of the normaliser, seeded random; 80 thorough) x 8 wsconst strings x both constructors (new, and deserialize_unchecked from the bytes of a serialised predictor): tokens tile the original text from 0 to its length, offsets on character boundaries, token text = original substring, consecutive positions, breaks exactly where normalise + predict + line-break filter + configured filters break; since round 11 every ordered pair of interesting characters (every character the table changes, its image, all kana, combining and half-width sound marks, joiners, CR, LF): the image of the pair is the character-wise image',
+        'replay_scope': 'c16: all 1,112,064 Unicode scalar values (exhaustive) + positional independence on 7 mixed strings; c16t (BOUNDED stand-in for the Tantivy clause, own replay crate): 8 models (resources/model.bin + seeded random ones; 40 thorough) x 34 texts (empty, whitespace only, CR/LF, half-width, combining marks, ZWJ emoji, texts without ASCII that contain non-ASCII keys of the normaliser, seeded random; 80 thorough) x 8 wsconst strings x both constructors (new, and deserialize_unchecked from the bytes of a serialised predictor): tokens tile the original text from 0 to its length, offsets on character boundaries, token text = original substring, consecutive positions, breaks exactly where normalise + predict + line-break filter + configured filters break; since round 11 every ordered pair of interesting characters (every character the table changes, its image, all kana, combining and half-width sound marks, joiners, CR, LF): the image of the pair is the character-wise image; since round 15 every character outside printable ASCII, the half-width / full-width forms block and the dash-like characters must map to itself (NUL and the other control characters included)',
         'not_covered': [
             'the Tantivy token stream (tantivy crate, Arc<dyn SentenceFilter>) is not under contract: its clause is decided by the bounded sweep c16t only (labelled bounded); a text containing NUL makes the adapter panic (Sentence::from_raw rejects it) - not part of the sweep, the statement lists empty / multi-byte / CR-LF texts',
         ],
@@ -79,7 +79,7 @@ PROPS = {
     'C08': {
         'units': [('contracts/S_raw.vc', None, 'S_raw'), ('contracts/S_parse.vc', None, 'S_parse'), ('contracts/P_pred.vc', 'realpred', 'P_pred')],
         'replay': ['c08', 'c05'],
-        'replay_scope': 'c08: ~2000 histories (all of length <= 2 over 20 operations, structured length-4, 1500 random of length 3..8) over updates in 3 formats, 6 predictors (with/without tags, score storing, seeded random models), fill_tags, reset_tags, filters, failed updates, each followed by update_raw(x); predict; [fill_tags] for 6 texts and compared with a fresh sentence; c05: every pair of updates without predictor',
+        'replay_scope': 'c08: ~2000 histories (all of length <= 2 over 20 operations, structured length-4, 1500 random of length 3..8) over updates in 3 formats, 6 predictors (with/without tags, score storing, seeded random models), fill_tags, reset_tags, filters, failed updates, each followed by update_raw(x); predict; [fill_tags] for 6 texts and compared with a fresh sentence; c05: every pair of updates without predictor; since round 15 histories that end in predict + fill_tags are followed by EVERY predictor, and every final text is also checked with all boundaries set to word boundaries before the tag fill (fill = 2)',
         'not_covered': [
             'one predictor used from many threads: Verus checks sequential code and Kani has no threads; that Predictor has no interior mutability is a type-level fact enforced by rustc (Send + Sync auto traits), not a contract',
             'Sentence.tag_scores is outside the view (see C05)',
@@ -88,7 +88,7 @@ PROPS = {
     'C01': {
         'units': [('contracts/P_pred.vc', 'realpred', 'P_pred'), ('contracts/T_cache.vc', None, 'T_cache'), ('contracts/C_scorers.vc', None, 'C_scorers')],
         'replay': 'c01',
-        'replay_scope': 'seeded random well-formed models (suffix-related n-grams, words, windows 1..4, weight vectors shorter and longer than 8; every 5th seed a degenerate shape: no character n-grams, no type n-grams, no dictionary, or neither kind of n-gram; every 6th seed weights near the 16-bit limits, every 6th seed vectors longer than 8 that are zero except for their last / first entries; now and then a window of 127, 128, 200 or 255) x 6 texts of 1..12 mixed-width characters + 2 texts assembled from the model\'s own n-grams, words, tag tokens and tag n-grams; texts of even length are predicted twice in a row on the same sentence; every boundary score compared with the brute-force linear model; plain and tagging scorers; since round 10/11: entries whose weights cancel their own suffix entry, tag weight lists in any offset order, and in every fifth text one code point from the edges of the character classes; since round 12 complete suffix chains of three or four entries built on purpose (every third model, character and type n-grams), type n-grams realised in the model-derived texts, now and then a tag model with 288 candidate scores',
+        'replay_scope': 'seeded random well-formed models (suffix-related n-grams, words, windows 1..4, weight vectors shorter and longer than 8; every 5th seed a degenerate shape: no character n-grams, no type n-grams, no dictionary, or neither kind of n-gram; every 6th seed weights near the 16-bit limits, every 6th seed vectors longer than 8 that are zero except for their last / first entries; now and then a window of 127, 128, 200 or 255) x 6 texts of 1..12 mixed-width characters + 2 texts assembled from the model\'s own n-grams, words, tag tokens and tag n-grams; texts of even length are predicted twice in a row on the same sentence; every boundary score compared with the brute-force linear model; plain and tagging scorers; since round 10/11: entries whose weights cancel their own suffix entry, tag weight lists in any offset order, and in every fifth text one code point from the edges of the character classes; since round 12 complete suffix chains of three or four entries built on purpose (every third model, character and type n-grams), type n-grams realised in the model-derived texts, now and then a tag model with 288 candidate scores; since round 15 the sentence arrives with labels of its own (prediction must overwrite them), now and then a tag token of 21 / 22 equal multi-byte characters (63..88 bytes), and the first occurrence of each tag token is cut out by hand in texts that hold such a token or whose length is a multiple of 7',
         'not_covered': [
             'ALL scorer bodies are verified in unit C_scorers (CharScorerBoundary, TypeScorerBoundary, both *BoundaryTag add_scores, both add_tag_scores, the enum dispatch CharScorer/TypeScorer::add_scores; the cached scorer in T_cache) against ASSUMED contracts of daachorse::find_overlapping_no_suffix_iter (yields a fixed match sequence; each match is an occurrence of a known pattern ending inside the input; end() is the byte offset of a character end), of the SplitMix hash-map lookup, and an ASSUMED scorer_wf (what new() builds: one entry per pattern, Fixed entries inside the 7-slot padding); unit P_pred uses exactly the enum-level contracts proved there (shared contract text) with char_scores/type_scores left abstract',
             'Predictor::predict therefore requires pred_scores_ok (scorer tables well-formed; no i32 overflow for this text) and sentences shorter than 2^31 characters: stated ranges, not proved of Predictor::new',
@@ -168,7 +168,7 @@ PROPS = {
         'level': 'exploration',
         'units': [],
         'replay': 'c20',
-        'replay_scope': 'BOUNDED: target_cli/release/predict built from /repo, run on a 21-line stdin (empty line, NUL, spaces, slashes, backslash; also fed with CR LF line ends and no final newline; half-width characters incl. those whose full-width form has the same byte length, full-width digits, combining marks, kanji runs of known words) with resources/model.bin under all 16 combinations of {--no-norm, --predict-tags, --scores, --tag-scores} x 5 --wsconst settings (none, D, G, K R, D K): stdout compared byte for byte with the library pipeline of the statement (one tokenised line per input line whose surfaces are the original text, empty line for empty/rejected input, score block and tag-score block after their line in one layout); evaluate on a 9-line reference (mis-segmented last word followed by correct sentences and vice versa) under {char, word} x {--predict-tags} x {--no-norm} x 4 --wsconst settings: counts, precision, recall, F1 compared with an independent implementation of the character confusion counts and the Nagata word matching; since round 12 evaluate also runs on the shipped model stripped of its tag models and on a reference with one line of 190,000 characters',
+        'replay_scope': 'BOUNDED: target_cli/release/predict built from /repo, run on a 21-line stdin (empty line, NUL, spaces, slashes, backslash; also fed with CR LF line ends and no final newline; half-width characters incl. those whose full-width form has the same byte length, full-width digits, combining marks, kanji runs of known words) with resources/model.bin under all 16 combinations of {--no-norm, --predict-tags, --scores, --tag-scores} x 5 --wsconst settings (none, D, G, K R, D K): stdout compared byte for byte with the library pipeline of the statement (one tokenised line per input line whose surfaces are the original text, empty line for empty/rejected input, score block and tag-score block after their line in one layout); evaluate on a 9-line reference (mis-segmented last word followed by correct sentences and vice versa) under {char, word} x {--predict-tags} x {--no-norm} x 4 --wsconst settings: counts, precision, recall, F1 compared with an independent implementation of the character confusion counts and the Nagata word matching; since round 12 evaluate also runs on the shipped model stripped of its tag models and on a reference with one line of 190,000 characters; since round 15 two more reference lines whose white space belongs to the sentence (leading U+3000, trailing escaped space)',
         'not_covered': [
             'main() of predict/evaluate is not under contract (stdin/stdout, clap, zstd): the claim is the bounded process-level comparison, labelled bounded',
             'one model (resources/model.bin), fixed inputs; train, convert_kytea_model and manipulate_model are not exercised',
